@@ -82,6 +82,18 @@ Theorem C02_mov_imm_correct : forall x rd v ws, spec_mov_imm x rd v = Some ws ->
 Proof. exact mov_imm_correct. Qed.
 Print Assumptions C02_mov_imm_correct.
 
+(* The mask view of the fixed bits agrees with the template view: every word encoded from a supported row carries exactly tfixed on the
+   positions tmask, whatever the operands (this is what links C02_tables_agree_db_partial, stated with tmask/tfixed, to the words of
+   spec_row). *)
+Theorem C02_fixed_bits_mask : forall r e, In r rows -> Z.land (tenc (r_tmpl r) e) (tmask (r_tmpl r)) = tfixed (r_tmpl r).
+Proof.
+  intros r e Hin. apply tenc_fixed_bits.
+  pose proof (proj1 (forallb_forall row_wf rows) rows_wf r Hin) as H. unfold row_wf in H.
+  repeat (apply andb_prop in H; destruct H as [H _]). unfold row_tmpl_wf in H.
+  repeat (apply andb_prop in H; destruct H as [H _]). exact H.
+Qed.
+Print Assumptions C02_fixed_bits_mask.
+
 (* Instruction level (all instructions except the MOV Rd,#imm pseudo instruction, covered by C02_mov_imm_correct): whatever spec_a64_rows returns for a mnemonic is the single word of one database row of that mnemonic (or of its
    LDUR/STUR fall-back mnemonic), so the three theorems above apply to it. *)
 Theorem C02_spec_a64_is_a_row : forall mn ops id ws, spec_a64_rows rows alt_table mn ops = Some (id, ws) ->
